@@ -42,7 +42,7 @@ def space(tier: str) -> List[scope.Case]:
     if tier not in _SPACE_CACHE:
         quick = tier == "quick"
         cases = scope.sing_space(tier) + scope.comb_space(2 if quick else 3) \
-            + scope.tree_space(4 if quick else 5)
+            + scope.tree_space(4 if quick else 5) + scope.homonym_space()
         # canonical de-duplication: same printed schema (names normalised) explored once
         seen, out = set(), []
         for c in cases:
@@ -52,6 +52,11 @@ def space(tier: str) -> List[scope.Case]:
                 out.append(c)
         _SPACE_CACHE[tier] = out
     return _SPACE_CACHE[tier]
+
+
+def c_space(tier: str) -> List[scope.Case]:
+    """The states whose C rendering is in scope (identifiers stay distinct in C's single name space)."""
+    return [c for c in space(tier) if "c_name_clash" not in c.feats]
 
 
 def canon(c: scope.Case) -> str:
@@ -424,7 +429,7 @@ def main(pid: str, tier: str) -> int:
              "non-trivial = some value bit set and more than one leaf/prefix in the layout; distinct by (schema, value) "
              "construction; object histories: %d event sequences per state on freshly imported modules" % (vmax(tier), len(HISTORIES)),
         exhaustive=True,
-        bound="SING(%s) u COMB(2; thorough 3) u TREE(%d), Vmax=%d, history deviations=%d" % (tier, 4 if tier == "quick" else 5, vmax(tier), len(HISTORIES) - 1),
+        bound="SING(%s) u COMB(2; thorough 3) u TREE(%d) u HOMONYMS, Vmax=%d, history deviations=%d" % (tier, 4 if tier == "quick" else 5, vmax(tier), len(HISTORIES) - 1),
         scope_sizes=dict(total_states=len(space(tier))),
     )
     return finish(pid, tier, acc, cov, t0,
